@@ -206,6 +206,15 @@ func (c *Contracts) loadForm(file string, f *SX) error {
 		}
 		c.Macros[f.List[1].List[0].Atom] = f
 		return nil
+	case "structural":
+		// (structural regex-literal "pkg.var" "literal" (props ...)): a fact about the program text, checked on the SSA without a solver
+		d := &Decl{Kind: "structural", Name: f.List[1].Atom + ":" + f.List[2].Atom, SX: f, File: file, Line: f.Line}
+		for _, e := range f.List[3:] {
+			if e.Head() == "props" {
+				d.Props = atoms(e)[1:]
+			}
+		}
+		return c.addDecl(d)
 	case "fnconst":
 		// (fnconst name "pkg.Func"): a named constant holding the identity of a Go function
 		return c.addDecl(&Decl{Kind: "fnconst", Name: f.List[1].Atom, SX: f, File: file, Line: f.Line})
